@@ -199,6 +199,7 @@ type viol struct {
 
 type result struct {
 	Runs, Streams, Distinct int
+	Cut                     int // handle-level inputs not run after three stuck handlers in the task
 	Viol                    []viol
 	Samples                 []string
 }
@@ -507,8 +508,13 @@ func worker(tb []byte, progress func()) []byte {
 		// connection level: malformed input on one connection, then a second connection must still be served
 		all := append(targetedMalformed(), malformedStrings(3)...)
 		mgr := h.NewManager()
+		stuck := 0 // every handler that never finishes costs h.Patience: the task is cut after three
 		for mi, m := range all {
 			if mi%t.Of != t.Shard {
+				continue
+			}
+			if stuck >= 3 {
+				res.Cut++
 				continue
 			}
 			if mi%64 == 0 {
@@ -531,6 +537,8 @@ func worker(tb []byte, progress func()) []byte {
 				continue
 			}
 			if !closed {
+				stuck++
+				progress()
 				addV(viol{Kind: "connection-not-closed", Cmd: "handle", Shape: shape, Detail: fmt.Sprintf("input %q then EOF: the connection handler never finishes", m), Input: m})
 			}
 			good := h.NewConn("good")
@@ -538,6 +546,10 @@ func worker(tb []byte, progress func()) []byte {
 			good.Send(model.EncodeCommand(h.B("PING")))
 			_, v, st := good.TakeReply(5 * time.Second)
 			if st != "ok" || !v.IsStr() || string(v.S) != "PONG" {
+				if st == "timeout" {
+					stuck++
+					progress()
+				}
 				addV(viol{Kind: "other-connection-disturbed", Cmd: "handle", Shape: shape, Detail: fmt.Sprintf("after input %q on another connection, PING on a fresh connection: %s %s", m, st, v), Input: m})
 			}
 			good.EOF()
@@ -645,7 +657,7 @@ func main() {
 		tier = "quick"
 	}
 	rep := ev.NewReport("C02", "exploration")
-	p := &pool.Pool{Handler: "respmc", N: 16, Timeout: 60 * time.Second, MemMB: 3072}
+	p := &pool.Pool{Handler: "respmc", N: 16, Timeout: 4 * time.Minute, MemMB: 3072}
 	var tasks [][]byte
 	for _, k := range []string{"wellformed", "malformed", "handle"} {
 		n := 16
@@ -657,7 +669,7 @@ func main() {
 			tasks = append(tasks, b)
 		}
 	}
-	runs, streams, distinct, crashes := 0, 0, 0, 0
+	runs, streams, distinct, crashes, cutInputs := 0, 0, 0, 0, 0
 	var samples []string
 	perKind := map[string]int{}
 	p.Map(tasks, func(tb, out []byte, crash *pool.Crash) [][]byte {
@@ -682,6 +694,7 @@ func main() {
 		json.Unmarshal(out, &r)
 		runs += r.Runs
 		streams += r.Streams
+		cutInputs += r.Cut
 		distinct += r.Distinct
 		perKind[t.Kind] += r.Runs
 		if len(samples) < 6 {
@@ -701,10 +714,11 @@ func main() {
 		"distinct_nontrivial": distinct + streams,
 		"rule":                "well-formed: argument vectors over {CR,LF,NUL,0xFF,a,$,*,space} (all strings up to the length bound, 1-3 arguments, pipelines of 1-3 commands, one 5000-byte argument) x every partition of the encoded stream into read chunks (all 2^(L-1) when L<=16, else every partition with <= the cut bound, all-single-bytes, zero-length reads): decoded commands must equal the encoded ones. malformed: every byte string up to the length bound over {*,$,+,-,:,0,1,2,a,CR,LF} plus targeted families, alone and before/after/between PINGs: no panic, parser terminates, nothing delivered that is not a well-formed command of the input; at Handle level the connection is closed and a second connection still gets PONG. distinct_nontrivial = (stream, partition) runs decoded correctly + distinct input streams",
 		"samples":             samples,
-		"exhaustive":          crashes == 0,
-		"streams":             streams,
-		"runs_per_family":     perKind,
-		"worker_crashes":      crashes,
+		"exhaustive":          crashes == 0 && cutInputs == 0,
+		"handle_inputs_cut_after_three_stuck_handlers": cutInputs,
+		"streams":         streams,
+		"runs_per_family": perKind,
+		"worker_crashes":  crashes,
 	}
 	os.Exit(rep.Finish(cov, []string{"the in-memory connection delivers exactly the scripted chunks; TCP-level behaviour of the built binary is not exercised"}))
 }
